@@ -39,6 +39,12 @@ def describe(e):
                 + (f", builder challenge = proof challenge: {e.get('builder_eq_proof')}, patterns {e.get('patterns')}" if e["case"] == "honest" else ""))
     if ev == "pattern":
         return f"documented constraint pattern fails on an honest {e['host']} proof (message {e['m']}, public {e['public']}): verifies={e['verifies']}, {e['patterns']}"
+    if ev == "rangeprover":
+        return f"range prover on {e['value']}: outcome {e['out']}, honest constraint checks {e.get('honest')}"
+    if ev == "rangeattack":
+        return f"range constraint assembled by an attacker ({e['case']}): verdict {e['verdict']}, relations {e['atoms']}, linked value in range: {e['linked_value_in_range']}"
+    if ev == "rangeparams":
+        return f"range parameters ({e['case']}): validate() ok = {e['validate_ok']}, all 128 signatures valid (independent) = {e['all_signatures_valid_independently']}"
     if ev == "pedersen":
         bad = [p for p in e["perturbed"] if p["verdict"] or p["verdict"] != p["recomputed_eq"]]
         return (f"Pedersen commitment ({e['group']}, N={e['N']}, {e['params']}, m={e['m']}, r={e['r']}): element equals independent h^r*prod g_i^m_i: {e['elem_eq_independent']}, "
@@ -141,9 +147,25 @@ def check_C11(tier, seed):
         lambda e: (e["kind"], e["N"], e["case"]), ALG_ASSUME)
 
 
+def check_C13(tier, seed):
+    t0 = time.time()
+    build_harness()
+    ms = [tlc_model("RangeC", "MC_RangeC.cfg", workers=4, name="mc_range")]
+    if tier != "quick":
+        ms.append(tlc_model("RangeC", "MC_RangeC_big.cfg", workers=12, name="mc_range2"))
+    ev = run_lib("C13", "range", tier, seed, "Trace_Range", lambda e: e["ev"].startswith("range"))
+    return lib_evidence("C13", tier, seed, ms, ev,
+        "one evaluation = one prover call on an i64 of the boundary set (MIN, MIN+1, -2^62, -129..-1, 0, 1, 127..129, 128^k-1, 128^k, 128^k+1, -128^k, 2^62, 2^63-2, 2^63-1, random) with the honest constraint "
+        "verified and checked against wrong slot / other parameters / other challenge / shifted response / no link; or one constraint assembled by an attacker from published digit signatures (all-maximal, "
+        "permuted, swapped signatures, digit claimed 128 / -1 / 5000 with a signature on another digit, signatures under the attacker's key or another parameter set, a linear combination of two published "
+        "signatures, unlinked); or one parameter set with a single signature substituted (i <- j, re-randomised own, other key) passed to validate(); distinct = (event kind, value or case)",
+        "tlc RangeC (ProverRoundTrip ProverRefusesNegatives AcceptedImpliesInRange MaxForgeable MaxReached) + Trace_Range on harness executions", t0,
+        lambda e: (e["ev"], e.get("value", e.get("case"))), ALG_ASSUME + ["A2: a digit proof verifies only for the digit its signature was issued on (checked concretely for every assembled case)"])
+
+
 def replay_lib(pid, p):
     REGISTRY[pid](p.get("tier", "quick"), p["seed"])
 
 
-REGISTRY = {"C07": check_C07, "C08": check_C08, "C09": check_C09, "C10": check_C10, "C11": check_C11}
+REGISTRY = {"C07": check_C07, "C08": check_C08, "C09": check_C09, "C10": check_C10, "C11": check_C11, "C13": check_C13}
 REPLAY = {"lib": replay_lib}
